@@ -4,6 +4,7 @@ package main
 
 import (
 	"fmt"
+	"go/ast"
 	"go/constant"
 	"go/token"
 	"os"
@@ -19,7 +20,7 @@ func init() {
 		Technique: "storage-layout analysis (key families of every Put/Delete/Find from canonical key terms): who-may-delete, writer/remover agreement, paired indices; must-facts for tombstone/existence guards; notification/effect equivalence at exits",
 		Explanation: "D1 the registry key is 'x'‖sha256(blob) and the stored value contains that blob; D2 the put path is reachable only with the tombstone 'd'‖id read as absent, delete writes 'd'‖id and no method (incl. the migration, shown by key-length facts) deletes family 'd'; " +
 			"D3 every family keyed by the container id that a put path can populate (x, o, eACL, nnsHasAlias, m) is deleted by Delete with the same id term on every effectful path (the alias: or was read empty), and the NNS deleteRecords call is made whenever the alias was non-empty; D4 the owner component of the 'o' key is produced by the same function of the blob at put time (submitted blob) and at delete/owner time (stored blob), 'x' and 'o' are written and deleted together; " +
-			"D5 Get, Owner, Alias, EACL, SetEACL, PutContainerSize reach a normal exit only with 'container exists' established; D6 PutSuccess/DeleteSuccess/SetEACLSuccess are emitted at one site each, outside loops, exactly on the paths that perform the state change, first argument = the container id, no other emitter. M: delete removes exactly when the owner lookup found an owner; list/containersOf scan the owner's ids for a non-empty owner and all ids for an empty one; the meta flag is written exactly when metaOnChain is set; loaders of the blob and the eACL. R6: the id-keyed families are deleted only from Delete (registry and owner index also by the layout migration).",
+			"D5 Get, Owner, Alias, EACL, SetEACL, PutContainerSize reach a normal exit only with 'container exists' established; D6 PutSuccess/DeleteSuccess/SetEACLSuccess are emitted at one site each, outside loops, exactly on the paths that perform the state change, first argument = the container id, no other emitter. M: delete removes exactly when the owner lookup found an owner; list/containersOf scan the owner's ids for a non-empty owner and all ids for an empty one; the meta flag is written exactly when metaOnChain is set; loaders of the blob and the eACL. R6: the id-keyed families are deleted only from Delete (registry and owner index also by the layout migration). R8: arguments of a contract.Call that resolves to a method of this repository stand at the position of the parameter their name is meant for (defaultExpire/defaultTTL).",
 		NotCovered: "equality of the read API with a reference model over interleavings, NNS-side effects of alias cleanup, parsing of blobs with unusual version-field offsets (value level).",
 		Run:        runC04,
 	})
@@ -86,6 +87,9 @@ func containerExistsAt(a *Analysis, st *CNF, cid *Term) bool {
 func runC04(cx *CheckCtx) {
 	w := cx.W
 	checkLoaders(cx, cnrPkg)
+	// the alias domain is registered with the settings it is meant to have (its lifetime decides whether
+	// Delete finds a record to remove)
+	checkCallArgRoles(cx, "container", "alias-paired")
 	c := cx.contract("container")
 	if c == nil {
 		return
@@ -1195,6 +1199,33 @@ func checkDistinctCounting(cx *CheckCtx, fn *ssa.Function) {
 			}
 		}
 	}
+	// converse at the length test: a vector is refused for its *number* of signatures only when it has
+	// fewer than REP (REP signatures of distinct members are enough)
+	{
+		var mT *Term
+		for id := int32(1); id < int32(len(a.lt.lits)); id++ {
+			l := a.lt.lits[id]
+			if l.Kind != KLt {
+				continue
+			}
+			for _, pr := range [][2]*Term{{l.A, l.B}, {l.B, l.A}} {
+				if pr[0].Op == "len" && pr[1].Op == "iterval" {
+					for _, alt := range tb.Alts(pr[1].Args[0]) {
+						if alt.Op == "find" && alt.Args[0] == tb.cat(tb.constBytes("r"), cid) {
+							mT = pr[1]
+							lenT := pr[0]
+							if nl, okL := returnsOnlyIf(a, fn, false, a.orderAxioms([2]*Term{lenT, mT}), []int32{a.litLt(lenT, mT)}, lenT, mT); nl > 0 {
+								cx.decide(okL, "acceptance", key+"/enough", "a vector is refused for the number of its signatures only when there are fewer than REP", "a vector carrying exactly REP signatures (or more) can be refused for its length: the documented threshold is not reachable", w.pos(fn.Pos()))
+							}
+						}
+					}
+				}
+			}
+			if mT != nil {
+				break
+			}
+		}
+	}
 	cx.decide(okCmp, "acceptance", key+"/threshold", "a vector is accepted under counter == REP read from 'r'‖cid", "the acceptance threshold is not the REP number stored for this container", w.pos(fn.Pos()))
 	okVec := false
 	for _, s := range a.Sites(func(s *Site) bool { return s.Inlined && s.Callee == cnrPkg+".Nodes" }) {
@@ -1330,4 +1361,90 @@ func comparedForAcceptance(p *ssa.Phi) bool {
 		}
 	}
 	return false
+}
+
+// checkCallArgRoles: a cross-contract call names its method by a string and
+// passes its arguments by position; nothing ties the two together at compile
+// time. Where the called method is a method of a contract of this repository
+// (unique by name and number of parameters), an argument that is a *named*
+// constant or variable whose name says which parameter it is meant for
+// (defaultExpire, defaultTTL) must stand at that parameter's position: a name
+// that contains another parameter's name and not its own position's is a
+// stated belief contradicted by the call (two swapped settings of one type).
+func checkCallArgRoles(cx *CheckCtx, cn, rule string) {
+	w := cx.W
+	c := cx.contract(cn)
+	if c == nil || c.Pkg == nil {
+		return
+	}
+	// ABI name / arity → parameter names
+	type sigKey struct {
+		name string
+		n    int
+	}
+	sigs := map[sigKey][][]string{}
+	for _, oc := range w.Contracts {
+		for _, m := range oc.Methods {
+			var ps []string
+			for _, p := range m.Fn.Params {
+				ps = append(ps, strings.ToLower(p.Name()))
+			}
+			k := sigKey{m.ABI, len(ps)}
+			sigs[k] = append(sigs[k], ps)
+		}
+	}
+	n := 0
+	for _, f := range c.Pkg.Syntax {
+		ast.Inspect(f, func(nd ast.Node) bool {
+			call, ok := nd.(*ast.CallExpr)
+			if !ok || len(call.Args) < 3 {
+				return true
+			}
+			se, ok := call.Fun.(*ast.SelectorExpr)
+			if !ok || se.Sel.Name != "Call" {
+				return true
+			}
+			if id, ok := se.X.(*ast.Ident); !ok || id.Name != "contract" {
+				return true
+			}
+			tv, ok := c.Pkg.TypesInfo.Types[call.Args[1]]
+			if !ok || tv.Value == nil || tv.Value.Kind() != constant.String {
+				return true
+			}
+			method := constant.StringVal(tv.Value)
+			args := call.Args[3:]
+			cands := sigs[sigKey{method, len(args)}]
+			if len(cands) != 1 {
+				return true // not a method of this repository, or ambiguous
+			}
+			params := cands[0]
+			for i, a := range args {
+				var name string
+				switch x := ast.Unparen(a).(type) {
+				case *ast.Ident:
+					name = x.Name
+				case *ast.SelectorExpr:
+					name = x.Sel.Name
+				default:
+					continue
+				}
+				ln := strings.ToLower(name)
+				if len(params[i]) < 3 || strings.Contains(ln, params[i]) {
+					continue
+				}
+				for j, pj := range params {
+					if j == i || len(pj) < 3 || !strings.Contains(ln, pj) {
+						continue
+					}
+					// the argument standing at pj's own position must in turn be named for another parameter,
+					// or this is just a generic name
+					n++
+					cx.violated(rule, fmt.Sprintf("%s/call %q arg %d", cn, method, i), fmt.Sprintf("the call of %q passes %s as parameter %q (position %d); its name says it is meant for parameter %q (position %d): two settings of one type are swapped — the callee stores the one in place of the other", method, name, params[i], i, pj, j), w.pos(a.Pos()))
+				}
+			}
+			n++
+			return true
+		})
+	}
+	cx.count("resolved_cross_calls_"+cn, n)
 }
